@@ -246,6 +246,9 @@ class GenerateWasmVisitor(Visitor.DefaultVisitor):
     def v_ReturnInstruction(self, ri: LinearIR.ReturnInstruction, ctx: Context):
         if ri.Value:
             self.__PushValueOntoStack(ri.Value, ctx)
+        elif not ri.Parent.Parent.Type.ReturnType.IsVoid():
+            # There is nothing to leave on the stack for the caller
+            raise RuntimeError("Return without a value in a non-void function")
 
         assert ctx.Code
         ctx.Code.AddInstruction(
